@@ -730,13 +730,12 @@ def optional_structs(tier):
         for od in orders:
             out.append(Struct(n, [Field([(0, 1), (2, 1)], 'u', arr=(2, 4), family='OPTORDER', arg_order=od)], family='OPTORDER',
                               passes=[('full', 'full')] if n <= 16 else [('alpha', 'alpha')]))
-        # `Option` written with a path
-        for op in ('core::option::', '::core::option::', 'std::option::'):
-            pp = [('full', 'full')] if n <= 16 else [('alpha', 'alpha')]
-            out.append(Struct(n, [Field([(1, 3)], 'o', enum=ne_enum(3), family='OPTPATH', opt_path=op)], family='OPTPATH', passes=pp))
-            out.append(Struct(n, [Field([(0, 2)], 'o', enum=ne_enum(2), arr=(2, 3), family='OPTPATH', opt_path=op)], family='OPTPATH', passes=pp))
-            if n >= 16:
-                out.append(Struct(n, [Field([(n - 8, 8)], 'o', enum=ne_enum(8), family='OPTPATH', opt_path=op)], family='OPTPATH', passes=pp))
+        # trailing commas
+        pp = [('full', 'full')] if n <= 16 else [('alpha', 'alpha')]
+        out.append(Struct(n, [Field([(1, 3)], 'u', family='OPTCOMMA', arg_order='ras,')], family='OPTCOMMA', passes=pp))
+        out.append(Struct(n, [Field([(0, 2)], 'u', arr=(3, 2), family='OPTCOMMA', arg_order='ras,')], family='OPTCOMMA', passes=pp))
+        out.append(Struct(n, [Field([(0, 1)], 'b', arr=(2, 3), family='OPTCOMMA', arg_order='sra,')], family='OPTCOMMA', passes=pp))
+        out.append(Struct(n, [Field([(n - 2, 2), (0, 2)], 'u', family='OPTCOMMA', arg_order='ra,')], family='OPTCOMMA', passes=pp))
         out.append(Struct(n, [Field([(1, 3)], 'u', family='OPTORDER', arg_order='ars')], family='OPTORDER', passes=[('full', 'full')] if n <= 16 else [('alpha', 'alpha')]))
         out.append(Struct(n, [Field([(n - 1, 1)], 'b', family='OPTORDER', arg_order='ars')], family='OPTORDER', passes=[('full', 'full')] if n <= 16 else [('alpha', 'alpha')]))
     return out
